@@ -150,6 +150,68 @@ func mustEvents(fn *ssa.Function, tr transferFn) uint64 {
 	return must
 }
 
+// r6HelperCleanup summarises a package-level helper that receives the output
+// file and/or its path as arguments: the close / remove / sync events (bits 0-2
+// of the producer's alphabet) that happen on every path through the helper.
+func r6HelperCleanup(p *Program, callee *ssa.Function, args []ssa.Value, file, pathArg ssa.Value, depth int) uint64 {
+	if depth > 2 {
+		return 0
+	}
+	var pf, pp ssa.Value
+	for i, a := range args {
+		if i >= len(callee.Params) {
+			break
+		}
+		if file != nil && sameValue(a, file) {
+			pf = callee.Params[i]
+		}
+		if pathArg != nil && sameValue(a, pathArg) {
+			pp = callee.Params[i]
+		}
+	}
+	if pf == nil && pp == nil {
+		return 0
+	}
+	var tr transferFn
+	tr = func(in ssa.Instruction, ev uint64, deferred bool) []uint64 {
+		cs, ok := in.(ssa.CallInstruction)
+		if !ok {
+			return nil
+		}
+		if _, isDefer := in.(*ssa.Defer); isDefer && !deferred {
+			return nil
+		}
+		if _, isGo := in.(*ssa.Go); isGo {
+			return nil
+		}
+		f := staticCallee(cs)
+		if f == nil {
+			return nil
+		}
+		switch f.String() {
+		case "(*os.File).Close":
+			if pf != nil && sameValue(recvOrArg0(cs), pf) {
+				return []uint64{ev | 1}
+			}
+		case "os.Remove":
+			if pp != nil && sameValue(cs.Common().Args[0], pp) {
+				return []uint64{ev | 2}
+			}
+		case "(*os.File).Sync":
+			if pf != nil && sameValue(recvOrArg0(cs), pf) {
+				return []uint64{ev | 4}
+			}
+		}
+		if p.InZap(f) && f.Parent() == nil && len(f.Blocks) > 0 && f != callee {
+			if s := r6HelperCleanup(p, f, cs.Common().Args, pf, pp, depth+1); s != 0 {
+				return []uint64{ev | s}
+			}
+		}
+		return nil
+	}
+	return mustEvents(callee, tr) & 7
+}
+
 // role of a completion call in a file-producing function
 type kRole struct {
 	name     string
@@ -231,6 +293,16 @@ func r6OneProducer(c *RuleCtx, fn *ssa.Function, props []string) {
 		c.undecidedP(props, name+"/acquisition-results", c.pos(acq), "both results of the acquisition are bound", "file or error result of the acquisition is discarded")
 		return
 	}
+	r6ProducerBody(c, fn, props, name, acq, file, aerr, pathArg, 0)
+}
+
+// r6ProducerBody applies the exit discipline to fn for the output file `file`.
+// With acq == nil, fn is a delegate: a function that was handed the open file
+// by the producer and completes it; cleanup after its failure is the caller's
+// duty (and is checked at the call site), everything else is the same. Returns
+// the close/sync events that are certain whenever fn reports success.
+func r6ProducerBody(c *RuleCtx, fn *ssa.Function, props []string, name string, acq *ssa.Call, file, aerr, pathArg ssa.Value, depth int) uint64 {
+	delegateMode := acq == nil
 
 	const (
 		evClosed  = 1 << 0
@@ -254,8 +326,9 @@ func r6OneProducer(c *RuleCtx, fn *ssa.Function, props []string) {
 		roleOf[site] = r
 	}
 	var syncSites, closeSites []ssa.CallInstruction
+	delegateSucc := map[ssa.CallInstruction]uint64{} // delegate call -> events certain when it returns nil
 	for _, cs := range callSites(fn) {
-		if cs == ssa.CallInstruction(acq) {
+		if acq != nil && cs == ssa.CallInstruction(acq) {
 			continue
 		}
 		if _, isDefer := cs.(*ssa.Defer); isDefer {
@@ -283,9 +356,15 @@ func r6OneProducer(c *RuleCtx, fn *ssa.Function, props []string) {
 			continue
 		}
 		if c.p.InZap(callee) && callee.Parent() == nil && errorResultIndex(callee.Signature) >= 0 {
-			for _, a := range cs.Common().Args {
+			for ai, a := range cs.Common().Args {
 				if wraps(a, file, 0) {
 					addRole(callee.Name(), cs, true)
+					if sameValue(a, file) && depth < 2 && ai < len(callee.Params) && len(callee.Blocks) > 0 && isNamed(callee.Params[ai].Type(), "os", "File") {
+						// handed the file itself: a delegate, judged by the same discipline
+						if _, done := delegateSucc[cs]; !done {
+							delegateSucc[cs] = r6ProducerBody(c, callee, props, name+">"+callee.Name(), nil, callee.Params[ai], nil, nil, depth+1)
+						}
+					}
 					break
 				}
 			}
@@ -312,7 +391,7 @@ func r6OneProducer(c *RuleCtx, fn *ssa.Function, props []string) {
 	}
 	if len(roles) == 0 {
 		c.undecidedP(props, name+"/roles", c.fpos(fn), "completion calls (writer routines receiving the file) are found in "+name, "no call receives the output file: the rule cannot tell what completes the output")
-		return
+		return 0
 	}
 
 	var tr transferFn
@@ -359,13 +438,41 @@ func r6OneProducer(c *RuleCtx, fn *ssa.Function, props []string) {
 			}
 			return []uint64{ev | s}
 		}
+		if c.p.InZap(callee) && callee.Parent() == nil && len(callee.Blocks) > 0 {
+			// a package-level helper handed the file and/or the path (the
+			// closure `cleanup` written as a function): what it does to
+			// them on every path
+			s := r6HelperCleanup(c.p, callee, cs.Common().Args, file, pathArg, 0)
+			if s != 0 {
+				return []uint64{ev | s}
+			}
+		}
 		return nil
 	}
 	pa := newPathAnalysis(fn, tr)
+	if len(delegateSucc) > 0 {
+		// what a delegate has certainly done is known on the edge where its
+		// error was found nil
+		pa.edgeTr = func(pred *ssa.BasicBlock, succIdx int, ev uint64) uint64 {
+			if len(pred.Succs) != 2 {
+				return ev
+			}
+			for cs, succ := range delegateSucc {
+				dv := errValueOfCall(cs)
+				if dv == nil {
+					continue
+				}
+				if branchFact(pred, pred.Succs[succIdx], dv) == isNil {
+					ev |= succ
+				}
+			}
+			return ev
+		}
+	}
 	pa.run(0)
 	if pa.truncated {
 		c.undecidedP(props, name+"/state-space", c.fpos(fn), "path analysis of "+name+" completes", "tuple limit reached")
-		return
+		return 0
 	}
 
 	// ordering: each role must come after the roles that precede it in
@@ -415,6 +522,8 @@ func r6OneProducer(c *RuleCtx, fn *ssa.Function, props []string) {
 	}
 
 	// exits
+	succMust := uint64(evClosed | evSync)
+	nSucc := 0
 	labels := map[string]int{}
 	for _, ret := range returnsOf(fn) {
 		if !pa.reachable(ret.Block()) {
@@ -424,11 +533,17 @@ func r6OneProducer(c *RuleCtx, fn *ssa.Function, props []string) {
 		key := name + "/" + exitLabel(ret, labels)
 		pos := c.pos(ret)
 		states := pa.statesBefore(ret)
-		if v != nil && sameValue(v, aerr) && ns == nonNil {
+		if v != nil && aerr != nil && sameValue(v, aerr) && ns == nonNil {
 			c.okP(props, key, pos, "exit after failed acquisition needs no cleanup")
 			continue
 		}
 		needFail := ns != isNil
+		if delegateMode && needFail {
+			needFail = false
+			if ns == nonNil {
+				c.okP(props, key, pos, "failure exit of a delegate: closing and removing the file is the producer's duty, checked where it tests this error")
+			}
+		}
 		needSucc := ns != nonNil
 		if ns == nilUnknown {
 			// e.g. `return f.Close()`: both disciplines apply
@@ -446,9 +561,11 @@ func r6OneProducer(c *RuleCtx, fn *ssa.Function, props []string) {
 				"a path reaches this error return without closing the file and removing "+pathName(pathArg)+" (the partial file would be left behind)", props, exitWitness(c, ret, v))
 		}
 		if needSucc {
+			nSucc++
 			okc := true
 			var why []string
 			for _, ev := range states {
+				succMust &= ev
 				if ev&evRemoved != 0 {
 					okc = false
 					why = append(why, "the output path is removed on a success path")
@@ -501,6 +618,10 @@ func r6OneProducer(c *RuleCtx, fn *ssa.Function, props []string) {
 				strings.Join(uniq(why), "; "), props, exitWitness(c, ret, v))
 		}
 	}
+	if nSucc == 0 {
+		return 0
+	}
+	return succMust
 }
 
 func statusOf(ok bool) Status {
@@ -769,6 +890,16 @@ func r6Open(c *RuleCtx) {
 	for _, l := range loaders {
 		if _, ok := want[l.name]; ok {
 			want[l.name] = true
+			continue
+		}
+		// a helper that runs the loaders on its receiver: what it has run,
+		// with the error tested, whenever it returns nil
+		if callee := staticCallee(l.site); callee != nil {
+			if _, pinned := pinnedSigs[fnKey(callee)]; !pinned {
+				for _, n := range successMustCalls(c.p, callee, []string{"loadConfig", "loadFieldsNew", "loadDvReaders"}) {
+					want[n] = true
+				}
+			}
 		}
 	}
 	for _, n := range []string{"loadConfig", "loadFieldsNew", "loadDvReaders"} {
@@ -860,6 +991,95 @@ func r6Open(c *RuleCtx) {
 			c.add(statusOf(okc), key+"/complete", pos, "Open returns a segment only after every loader succeeded", strings.Join(uniq(why), "; "), props, exitWitness(c, ret, v))
 		}
 	}
+}
+
+// successMustCalls: of the named methods, those that `helper` has called on its
+// own receiver, with the error found nil, on every path on which it returns a
+// nil (or not provably non-nil) error.
+func successMustCalls(p *Program, helper *ssa.Function, names []string) []string {
+	if len(helper.Params) == 0 || len(helper.Blocks) == 0 || errorResultIndex(helper.Signature) < 0 {
+		return nil
+	}
+	recv := helper.Params[0]
+	type site struct {
+		cs  ssa.CallInstruction
+		bit uint64
+	}
+	sites := map[string][]site{}
+	bitOf := map[string]uint64{}
+	for i, n := range names {
+		bitOf[n] = 1 << uint(i)
+	}
+	for _, cs := range callSites(helper) {
+		f := staticCallee(cs)
+		if f == nil || !p.InZap(f) {
+			continue
+		}
+		for _, n := range names {
+			if f.Name() == n && baseOfAddr(recvOrArg0(cs)) == ssa.Value(recv) {
+				sites[n] = append(sites[n], site{cs, bitOf[n]})
+			}
+		}
+	}
+	tr := func(in ssa.Instruction, ev uint64, _ bool) []uint64 {
+		for _, ss := range sites {
+			for _, st := range ss {
+				if ssa.Instruction(st.cs) == in {
+					return []uint64{ev | st.bit}
+				}
+			}
+		}
+		return nil
+	}
+	pa := newPathAnalysis(helper, tr)
+	pa.run(0)
+	must := ^uint64(0)
+	for _, ret := range returnsOf(helper) {
+		if !pa.reachable(ret.Block()) {
+			continue
+		}
+		v, ns := errorOfReturn(ret)
+		if ns == nonNil {
+			continue
+		}
+		for _, ev := range pa.statesBefore(ret) {
+			must &= ev
+		}
+		// errors of the calls that dominate this return are nil here (or are
+		// the very value returned)
+		for n, ss := range sites {
+			for _, st := range ss {
+				ev := errValueOfCall(st.cs)
+				if ev == nil {
+					must &^= bitOf[n]
+					continue
+				}
+				if st.cs.Block().Dominates(ret.Block()) && !sameValue(ev, v) && nilnessAt(ev, ret.Block()) != isNil {
+					must &^= bitOf[n]
+				}
+			}
+		}
+	}
+	var out []string
+	for _, n := range names {
+		if len(sites[n]) > 0 && must&bitOf[n] != 0 {
+			out = append(out, n)
+		}
+	}
+	return out
+}
+
+// baseOfAddr: the value that v points into (v, &v.f, &v.f.g ...), rooted.
+func baseOfAddr(v ssa.Value) ssa.Value {
+	for i := 0; i < 8 && v != nil; i++ {
+		r := root(v)
+		fa, ok := r.(*ssa.FieldAddr)
+		if !ok {
+			return r
+		}
+		v = fa.X
+	}
+	return v
 }
 
 // baseAlloc: the local allocation that v points into (v = alloc, &alloc.f, ...).
